@@ -303,7 +303,7 @@ theorem mem_dget : ∀ {m : Dict} {k v : String}, (dkeys m).Nodup → (k, v) ∈
       exact mem_dget hn.2 h
 
 /-- the declaration an attribute token makes, if any -/
-def declOf (kv : Str × Str) : Option (String × String) :=
+def attrDeclOf (kv : Str × Str) : Option (String × String) :=
   if kv.1 == "xmlns".toList then some ("", String.ofList kv.2)
   else match splitQName kv.1 with
     | (some p, l) => if p == "xmlns".toList then some (String.ofList l, String.ofList kv.2) else none
@@ -313,8 +313,8 @@ theorem scopeOf_step (sc : Scope) (kv : Str × Str) :
     (if kv.1 == "xmlns".toList then ("", String.ofList kv.2) :: sc
       else match splitQName kv.1 with
         | (some p, l) => if p == "xmlns".toList then (String.ofList l, String.ofList kv.2) :: sc else sc
-        | _ => sc) = (match declOf kv with | some e => e :: sc | none => sc) := by
-  unfold declOf
+        | _ => sc) = (match attrDeclOf kv with | some e => e :: sc | none => sc) := by
+  unfold attrDeclOf
   rcases hs : splitQName kv.1 with ⟨a, l⟩
   generalize (kv.1 == "xmlns".toList) = b1
   cases b1
@@ -328,19 +328,19 @@ theorem scopeOf_step (sc : Scope) (kv : Str × Str) :
   · rfl
 
 theorem scopeOf_eq : ∀ (attrs : List (Str × Str)) (outer : Scope),
-    scopeOf attrs outer = (attrs.filterMap declOf).reverse ++ outer
+    scopeOf attrs outer = (attrs.filterMap attrDeclOf).reverse ++ outer
   | [], outer => rfl
   | kv :: attrs, outer => by
     have hstep : scopeOf (kv :: attrs) outer =
-        scopeOf attrs (match declOf kv with | some e => e :: outer | none => outer) := by
+        scopeOf attrs (match attrDeclOf kv with | some e => e :: outer | none => outer) := by
       rw [← scopeOf_step]; rfl
     rw [hstep, scopeOf_eq attrs, List.filterMap_cons]
-    cases declOf kv <;> simp
+    cases attrDeclOf kv <;> simp
 
-theorem isDecl_false_declOf {k : Str} {v : Str} (h : isDecl k = false) : declOf (k, v) = none := by
+theorem isDecl_false_declOf {k : Str} {v : Str} (h : isDecl k = false) : attrDeclOf (k, v) = none := by
   simp only [isDecl, Bool.or_eq_false_iff] at h
   obtain ⟨h1, h2⟩ := h
-  unfold declOf
+  unfold attrDeclOf
   simp only [h1, Bool.false_eq_true, if_false]
   rcases hs : splitQName k with ⟨a, l⟩
   rw [hs] at h2
@@ -359,7 +359,7 @@ theorem isDecl_false_declOf {k : Str} {v : Str} (h : isDecl k = false) : declOf 
 theorem scopeOf_noDecl (attrs : List (Str × Str)) (outer : Scope)
     (h : ∀ kv ∈ attrs, isDecl kv.1 = false) : scopeOf attrs outer = outer := by
   rw [scopeOf_eq]
-  have : attrs.filterMap declOf = [] := by
+  have : attrs.filterMap attrDeclOf = [] := by
     rw [List.filterMap_eq_nil_iff]
     intro kv hkv; exact isDecl_false_declOf (h kv hkv)
   simp [this]
@@ -389,7 +389,7 @@ structure MapCtx (m : Dict) : Prop where
 /-- the scope every element of a serialized document is read in -/
 def rootScope (m : Dict) : Scope := scopeOf (declarations m) []
 
-def dfltDecl (m : Dict) : List (Str × Str) :=
+def defaultDecl (m : Dict) : List (Str × Str) :=
   match m.find? (fun e => e.2 == "") with
   | some (ns, _) => if ns == "" then [] else [("xmlns".toList, ns.toList)]
   | none => []
@@ -402,22 +402,22 @@ def declFor (m : Dict) (p : String) : Option (Str × Str) :=
   | some (ns, _) => some (("xmlns:" ++ chopColon p).toList, ns.toList)
   | none => none
 
-theorem declarations_eq (m : Dict) :
-    declarations m = dfltDecl m ++ (((prefixedOf m).map (·.2)).foldr insertStr []).filterMap (declFor m) := rfl
+theorem declarations_split (m : Dict) :
+    declarations m = defaultDecl m ++ (((prefixedOf m).map (·.2)).foldr insertStr []).filterMap (declFor m) := rfl
 
-theorem mem_insertStr {a b : String} : ∀ {l : List String}, a ∈ insertStr b l ↔ a = b ∨ a ∈ l
+theorem mem_insertStr_iff {a b : String} : ∀ {l : List String}, a ∈ insertStr b l ↔ a = b ∨ a ∈ l
   | [] => by simp [insertStr]
   | c :: l => by
     simp only [insertStr]
     split
     · simp
-    · simp only [List.mem_cons, mem_insertStr (l := l)]
+    · simp only [List.mem_cons, mem_insertStr_iff (l := l)]
       constructor <;> (intro h; rcases h with h | h | h <;> simp [h])
 
-theorem mem_sortStr {a : String} : ∀ {l : List String}, a ∈ l.foldr insertStr [] ↔ a ∈ l
+theorem mem_sortStr_iff {a : String} : ∀ {l : List String}, a ∈ l.foldr insertStr [] ↔ a ∈ l
   | [] => by simp
   | b :: l => by
-    rw [List.foldr_cons, mem_insertStr, mem_sortStr (l := l)]; simp
+    rw [List.foldr_cons, mem_insertStr_iff, mem_sortStr_iff (l := l)]; simp
 
 theorem xmlnsq_toList (q : String) : ("xmlns:" ++ q).toList = "xmlns".toList ++ ':' :: q.toList := by
   rw [String.toList_append, xmlnsc_lit, xmlns_lit]; rfl
@@ -425,13 +425,13 @@ theorem xmlnsq_toList (q : String) : ("xmlns:" ++ q).toList = "xmlns".toList ++ 
 theorem colon_notin_xmlns : ':' ∉ "xmlns".toList := by rw [xmlns_lit]; decide
 
 theorem declOf_eq_default (k v : Str) (h : k = "xmlns".toList) :
-    declOf (k, v) = some ("", String.ofList v) := by
+    attrDeclOf (k, v) = some ("", String.ofList v) := by
   have hb : (k == "xmlns".toList) = true := by rw [h]; exact beq_self_eq_true _
-  unfold declOf
+  unfold attrDeclOf
   simp only [hb, if_true]
 
 theorem declOf_eq_prefixed (k v l : Str) (h : k = "xmlns".toList ++ ':' :: l) :
-    declOf (k, v) = some (String.ofList l, String.ofList v) := by
+    attrDeclOf (k, v) = some (String.ofList l, String.ofList v) := by
   have h1 : (k == "xmlns".toList) = false := by
     rw [beq_eq_false_iff_ne, h]; intro h
     have := congrArg List.length h
@@ -440,14 +440,14 @@ theorem declOf_eq_prefixed (k v l : Str) (h : k = "xmlns".toList ++ ':' :: l) :
   have h2 : splitQName k = (some "xmlns".toList, l) := by
     rw [h]; exact splitQName_colon _ _ colon_notin_xmlns
   have h3 : ("xmlns".toList == "xmlns".toList) = true := beq_self_eq_true _
-  unfold declOf
+  unfold attrDeclOf
   simp only [h1, Bool.false_eq_true, if_false, h2, h3, if_true]
 
-theorem declOf_default (ns : String) : declOf ("xmlns".toList, ns.toList) = some ("", ns) := by
+theorem declOf_default (ns : String) : attrDeclOf ("xmlns".toList, ns.toList) = some ("", ns) := by
   rw [declOf_eq_default _ _ rfl, String.ofList_toList]
 
 theorem declOf_prefixed (q ns : String) :
-    declOf (("xmlns:" ++ q).toList, ns.toList) = some (q, ns) := by
+    attrDeclOf (("xmlns:" ++ q).toList, ns.toList) = some (q, ns) := by
   rw [declOf_eq_prefixed _ _ _ (xmlnsq_toList q), String.ofList_toList, String.ofList_toList]
 
 theorem isDecl_default : isDecl "xmlns".toList = true := by
@@ -458,7 +458,7 @@ theorem isDecl_prefixed (q : String) : isDecl ("xmlns:" ++ q).toList = true := b
   rw [xmlnsq_toList, splitQName_colon _ _ colon_notin_xmlns, beq_self_eq_true, Bool.or_true]
 
 theorem mem_rootScope {m : Dict} {e : String × String} :
-    e ∈ rootScope m ↔ ∃ kv ∈ declarations m, declOf kv = some e := by
+    e ∈ rootScope m ↔ ∃ kv ∈ declarations m, attrDeclOf kv = some e := by
   unfold rootScope
   rw [scopeOf_eq]
   simp only [List.append_nil, List.mem_reverse, List.mem_filterMap]
@@ -485,9 +485,9 @@ theorem mem_prefixedOf {m : Dict} {ns p : String} :
 theorem rootScope_sound {m : Dict} (hc : MapCtx m) {q ns : String} (h : (q, ns) ∈ rootScope m) :
     (q = "" ∧ ns ≠ "" ∧ dget m ns = some "") ∨ (q ≠ "" ∧ dget m ns = some (q ++ ":")) := by
   obtain ⟨kv, hkv, hd⟩ := mem_rootScope.mp h
-  rw [declarations_eq, List.mem_append] at hkv
+  rw [declarations_split, List.mem_append] at hkv
   rcases hkv with hkv | hkv
-  · unfold dfltDecl at hkv
+  · unfold defaultDecl at hkv
     split at hkv
     · rename_i ns' x hf
       split at hkv
@@ -522,9 +522,9 @@ theorem rootScope_sound {m : Dict} (hc : MapCtx m) {q ns : String} (h : (q, ns) 
 theorem rootScope_complete_default {m : Dict} (hc : MapCtx m) {ns : String}
     (h : dget m ns = some "") (hne : ns ≠ "") : ("", ns) ∈ rootScope m := by
   refine mem_rootScope.mpr ⟨("xmlns".toList, ns.toList), ?_, declOf_default ns⟩
-  rw [declarations_eq, List.mem_append]
+  rw [declarations_split, List.mem_append]
   left
-  unfold dfltDecl
+  unfold defaultDecl
   cases hf : m.find? (fun e => e.2 == "") with
   | none =>
     rw [List.find?_eq_none] at hf
@@ -541,13 +541,13 @@ theorem rootScope_complete_default {m : Dict} (hc : MapCtx m) {ns : String}
 theorem rootScope_complete_prefixed {m : Dict} (hc : MapCtx m) {q ns : String}
     (h : dget m ns = some (q ++ ":")) (hx : q ≠ "xml") (hxs : q ≠ "xmlns") : (q, ns) ∈ rootScope m := by
   refine mem_rootScope.mpr ⟨(("xmlns:" ++ q).toList, ns.toList), ?_, declOf_prefixed q ns⟩
-  rw [declarations_eq, List.mem_append]
+  rw [declarations_split, List.mem_append]
   right
   have hpm : (ns, q ++ ":") ∈ prefixedOf m :=
     mem_prefixedOf.mpr ⟨dget_mem h, append_colon_ne_empty q, by rw [chopColon_append]; exact hx,
       by rw [chopColon_append]; exact hxs⟩
   rw [List.mem_filterMap]
-  refine ⟨q ++ ":", mem_sortStr.mpr (List.mem_map.mpr ⟨_, hpm, rfl⟩), ?_⟩
+  refine ⟨q ++ ":", mem_sortStr_iff.mpr (List.mem_map.mpr ⟨_, hpm, rfl⟩), ?_⟩
   unfold declFor
   cases hf : (prefixedOf m).find? (fun e => e.2 == q ++ ":") with
   | none =>
@@ -918,9 +918,9 @@ end
 
 theorem isDecl_declarations (m : Dict) : ∀ kv ∈ declarations m, isDecl kv.1 = true := by
   intro kv hkv
-  rw [declarations_eq, List.mem_append] at hkv
+  rw [declarations_split, List.mem_append] at hkv
   rcases hkv with hkv | hkv
-  · unfold dfltDecl at hkv
+  · unfold defaultDecl at hkv
     split at hkv
     · split at hkv
       · simp at hkv
